@@ -10,7 +10,9 @@ mode `array`:  `<len> <ranks> <default> | tok tok …`
 
 mode `bag`:    `<ranks> | tok tok …`
   tokens  `i:src:x  t:src:x:dest  v:src:dest:x,x,..|-`   inserts (issued, pending until a barrier)
-          `B:sched`  `R:ords:sched`  `L:r:x,x,..`  `G:dests:sched`  `c`  `S`  `T:n`
+          `B:sched`  `R:ords:obs`  `L:r:x,x,..`  `G:dests:obs`  `c`  `S`  `T:n`
+          obs: what every rank observed during the operation = its vector after each message it executed
+               (ranks joined by a slash, snapshots by `;`, items by `,`), from which the interleaving is derived
           `D` dump bags   `K` dump rebalance plan keys (`t=count` per rank)   `g:dest:order`   `a:order`
           sched/order: `-` = identity, else comma list; ords: `desc` | `asc` | lists joined by `/`; dests: lists joined by `/`
   answer  dumps joined by ` # `; `trap` when an operation fails.
@@ -150,6 +152,62 @@ def planKeys (b : Bag Nat) : List (List (Nat × Nat)) :=
     let sz := (b.bags.getD r []).length
     (sendKeys (total b) b.ranks pre sz r).map (fun t => (t, sendCount (total b) b.ranks pre sz r t)))
 
+/-! interleavings of `rebalance` / `global_shuffle`: search code (not part of the model) that turns the
+per-rank observations into a global event list for `Net.run`.  A wrong guess only shows as a disagreement. -/
+
+inductive Loc where
+  | pop
+  | shuf (ds : List Nat)
+  | rcv (first : Nat)
+
+def commonPrefixLen : List Nat → List Nat → Nat
+  | a :: as, b :: bs => if a = b then commonPrefixLen as bs + 1 else 0
+  | _, _ => 0
+
+/-- local sequence of one rank in a rebalance: vector before, sizes of its pops in order, snapshots -/
+def localsR (cur : List Nat) (pops : List Nat) : List (List Nat) → List Loc
+  | [] => pops.map (fun _ => Loc.pop)
+  | snap :: rest =>
+    let keep := commonPrefixLen snap cur
+    let j := ((List.range (pops.length + 1)).find? (fun j =>
+      (pops.take j).sum ≤ cur.length && cur.length - (pops.take j).sum == keep)).getD 0
+    let x := ((snap.drop keep).head?).getD 0
+    List.replicate j Loc.pop ++ [Loc.rcv x] ++ localsR snap (pops.drop j) rest
+
+/-- local sequence of one rank in a global_shuffle: it drew `ds.length` ranks, so that many items were in its
+vector when it swapped out; each message brings one item (the last of the snapshot) -/
+def localsG (v0 : List Nat) (ds : List Nat) (snaps : List (List Nat)) : List Loc :=
+  let pre := ds.length - v0.length
+  let firsts := snaps.map (fun sn => sn.getLast?.getD 0)
+  (firsts.take pre).map Loc.rcv ++ [Loc.shuf ds] ++ (firsts.drop pre).map Loc.rcv
+
+def locEvent (st : Net Nat) (r : Nat) : Loc → Option Ev
+  | .pop => some (.act r [])
+  | .shuf ds => some (.act r ds)
+  | .rcv x =>
+    ((List.range st.flight.length).find? (fun k => match st.flight[k]? with
+      | some m => m.dest == r && m.items.head? == some x
+      | none => false)).map Ev.recv
+
+/-- greedy merge of the local sequences into one global sequence accepted by `Net.step` -/
+def mergeLocals : Nat → Net Nat → List (List Loc) → List Ev
+  | 0, _, _ => []
+  | fuel + 1, st, locals =>
+    let cand := (List.range locals.length).findSome? (fun r =>
+      match locals[r]? with
+      | some (l :: rest) =>
+        match locEvent st r l with
+        | some e => (st.step e).map (fun st' => (e, st', locals.set r rest))
+        | none => none
+      | _ => none)
+    match cand with
+    | some (e, st', locals') => e :: mergeLocals fuel st' locals'
+    | none => []
+
+/-- observations: ranks joined by a slash, snapshots by `;`, items by `,`, a dash for none -/
+def obsOf (s : String) : Option (List (List (List Nat))) :=
+  (s.splitOn "/").mapM (fun r => if r = "-" then some [] else (r.splitOn ";").mapM natList?)
+
 /-- arrival order of the ranks' vectors at `dest` that explains an observed gather result -/
 def orderOf (s : String) (b : Bag Nat) (dest : Nat) : Option (List Nat) :=
   let msgs : List (Msg Nat) := (List.range b.ranks).map (fun r => { dest := dest, items := b.bags.getD r [] })
@@ -174,30 +232,33 @@ def bagTok (s : BState) (tok : String) : BState :=
   | ["B", sc] => match schedOf sc cur.bag.bags cur.pending with
     | some sc => s.stepOp (.barrier sc)
     | none => s.fail "bad-op"
-  | ["R", ords, sc] =>
-    let keys := (planKeys cur.bag).map (fun l => l.map (·.1))
+  | ["R", ords, obs] =>
+    let keysc := planKeys cur.bag
+    let keys := keysc.map (fun l => l.map (·.1))
     let ords? : Option (List (List Nat)) :=
       if ords = "asc" then some keys else if ords = "desc" then some (keys.map List.reverse) else listsOf ords
-    match ords? with
-    | none => s.fail "bad-op"
-    | some ords =>
-      match rebalancePlan cur.bag ords with
-      | none => s.fail "trap"
-      | some plan =>
-        match schedOf sc (plan.map (·.1)) (planMsgs plan) with
-        | some sc => s.stepOp (.rebalance ords sc)
-        | none => s.fail "bad-op"
+    match ords?, obsOf obs with
+    | some ords, some obs =>
+      let b := cur.bag
+      let locals := (List.range b.ranks).map (fun r =>
+        let pre := prefixOf (sizes b) r
+        let sz := (b.bags.getD r []).length
+        localsR (b.bags.getD r []) ((ords.getD r []).map (sendCount (total b) b.ranks pre sz r)) (obs.getD r []))
+      let evs := mergeLocals (4 * (total b) + 4 * b.ranks * b.ranks + 8) (rebalanceInit b ords) locals
+      s.stepOp (.rebalance ords evs)
+    | _, _ => s.fail "bad-op"
   | ["L", r, new] => match r.toNat?, natList? new with
     | some r, some new => s.stepOp (.lshuffle r new)
     | _, _ => s.fail "bad-op"
-  | ["G", dests, sc] => match listsOf dests with
-    | some dests =>
-      let msgs := ((List.range cur.bag.bags.length).map (fun r =>
-        (shuffleMsgs (cur.bag.bags.getD r []) (dests.getD r [])).getD [])).flatten
-      match schedOf sc (cur.bag.bags.map (fun _ => [])) msgs with
-      | some sc => s.stepOp (.gshuffle dests sc)
-      | none => s.fail "bad-op"
-    | none => s.fail "bad-op"
+  | ["G", dests, obs] =>
+    match listsOf dests, obsOf obs with
+    | some dests, some obs =>
+      let b := cur.bag
+      let locals := (List.range b.bags.length).map (fun r => localsG (b.bags.getD r []) (dests.getD r []) (obs.getD r []))
+      let st0 : Net Nat := { bags := b.bags, todo := b.bags.map (fun _ => [Act.shuf]), flight := [] }
+      let evs := mergeLocals (4 * (total b) + 4 * b.ranks + 8) st0 locals
+      s.stepOp (.gshuffle evs)
+    | _, _ => s.fail "bad-op"
   | ["c"] => s.stepOp .clear
   | ["S"] =>
     match s.st with
